@@ -155,6 +155,13 @@ pub fn replay(fctx: &fuzz::Ctx, seed: u64, reps: usize, rep: &mut Report, trace:
             // no extra settings" (all probes of all three paths are then visible; F32 is this case for `minecraft`)
             let forced = n == 0;
             let behaviour = if forced { "silent" } else { behaviour };
+            // ... and, for every row, a fixed schedule before the random cases: each server behaviour once without any settings
+            // (the only cases in which the module path is comparable), then silence and a partial answer with the caller's
+            // timeout settings (retries 1), then a valid and a partial answer with default extra settings
+            const FIXED: [(&str, u8); 10] = [("silent", 0), ("valid", 0), ("partial", 0), ("foreign", 0), ("malformed", 0), ("dedicated", 0),
+                                            ("silent", 1), ("partial", 1), ("valid", 2), ("partial", 2)];
+            let fixed: Option<(&str, u8)> = FIXED.get(n).copied();
+            let behaviour = fixed.map_or(behaviour, |f| f.0);
             let is_valve = matches!(game.protocol, Protocol::Valve(_) | Protocol::PROPRIETARY(P::TheShip));
             match behaviour {
                 "foreign" | "dedicated" if is_valve => {
@@ -203,13 +210,16 @@ pub fn replay(fctx: &fuzz::Ctx, seed: u64, reps: usize, rep: &mut Report, trace:
             let script = base.script();
             let ip: IpAddr = "127.0.0.1".parse().unwrap();
             // caller-supplied settings: none (then the module path is comparable too), or extra settings with some fields unset
-            let extras: Option<ExtraRequestSettings> = match if forced { 5 } else { rng.gen_range(0 .. 6) } {
+            let extras: Option<ExtraRequestSettings> = match if let Some((_, k)) = fixed { if k == 2 { 0 } else { 5 } } else { rng.gen_range(0 .. 6) } {
                 0 => Some(ExtraRequestSettings::default()),
                 1 => Some(ExtraRequestSettings::default().set_gather_players(gamedig::protocols::types::GatherToggle::Skip)),
                 2 => Some(ExtraRequestSettings::default().set_check_app_id(false).set_gather_rules(gamedig::protocols::types::GatherToggle::Enforce)),
                 _ => None,
             };
-            let tsettings = if rng.gen_bool(0.3) { crate::valve::timeouts(1) } else { None };
+            let tsettings = match fixed {
+                Some((_, k)) => if k == 1 { crate::valve::timeouts(1) } else { None },
+                None => if rng.gen_bool(0.3) { crate::valve::timeouts(1) } else { None },
+            };
             let port_eff = |default: u16| given.unwrap_or(default);
             let m = DEFAULT_MAX_OPS;
             // --- conversions to the module's representation
